@@ -7,8 +7,7 @@
 From SpyneV Require Export C10.Xml C10.Dict.
 
 Inductive outcome :=
-| Called (c : nat)                       (* deserialised; the user function of the method whose
-                                            in_message is class c is run *)
+| Called (c : nat)                       (* deserialised; the user function of method number c is run *)
 | Answered (cls : pyexn) (code : text)   (* answered with this fault; the user function is not run *)
 | Escaped (e : pyexn) (code : text).     (* an exception leaves the entry point *)
 
@@ -118,6 +117,23 @@ Section Server.
   Definition wsgi_run : outcome := wsgi_steps handle_rpc_steps (mkw None None None).
 End Server.
 
+(** ---- WsgiApplication.__reconstruct_wsgi_request: the charset parameter of Content-Type ----
+    What codecs.lookup(charset) does is the library's business: it raises (LookupError for an
+    unknown name, TypeError / ValueError for a value that is no proper string), or finds a codec
+    that is or is not a text encoding (bytes.decode refuses the others with LookupError). *)
+Inductive codec_lookup :=
+| CLNone                      (* no Content-Type, or no charset parameter *)
+| CLRaise (e : pyexn)
+| CLFound (is_text : bool).
+Definition reconstruct_wsgi_request (cl : codec_lookup) : res unit :=
+  match cl with
+  | CLNone => Ret tt
+  | CLRaise e => tryS (nth_try 0 wsgi_reconstruct_tries) (Raise e [])
+  | CLFound is_text =>
+      (* without the check the protocol's own .decode(charset) raises LookupError later *)
+      guard_raise g_wsgi_charset_not_text (negb is_text) (Raise ELookupError []) (Ret tt)
+  end.
+
 (** the property, on an outcome: a normal call, or a fault of the Client family; never an escaped
     exception, never another fault *)
 Definition good (o : outcome) : bool :=
@@ -135,18 +151,18 @@ Definition good_or_fuel (o : outcome) : bool :=
 
 (** ---- the entry points per protocol ---- *)
 Definition xml_server (soft : bool) (A : app) (rq : xml_request) : outcome :=
-  server_run (nat * xnode) (xml_decode_head A rq) (fun h => xml_deserialize soft A (fst h) (snd h)) fst.
+  server_run (msig * xnode) (xml_decode_head A rq) (fun h => xml_deserialize soft A (fst h) (snd h)) (fun h => ms_id (fst h)).
 Definition soap_server (ns_soap : text) (soft : bool) (A : app) (rq : soap_request) : outcome :=
-  server_run (nat * xnode) (soap_decode_head ns_soap A rq) (fun h => soap_deserialize soft A (fst h) (snd h)) fst.
+  server_run (msig * xnode) (soap_decode_head ns_soap A rq) (fun h => soap_deserialize soft A (fst h) (snd h)) (fun h => ms_id (fst h)).
 Definition dict_server (fmt : jv -> text) (P : dproto) (soft : bool) (A : app) (fuel : nat) (rq : dict_request) : outcome :=
-  server_run (nat * jv * jv) (dict_decode_head fmt P A rq)
-    (fun h => dict_deserialize P soft A fuel (fst (fst h)) (snd (fst h)) (snd h)) (fun h => fst (fst h)).
+  server_run (msig * jv * jv) (dict_decode_head fmt P A rq)
+    (fun h => dict_deserialize P soft A fuel (fst (fst h)) (snd (fst h)) (snd h)) (fun h => ms_id (fst (fst h))).
 
 Definition xml_wsgi (soft : bool) (A : app) (reconstruct : res unit) (rq : xml_request) : outcome :=
-  wsgi_run (nat * xnode) (xml_decode_head A rq) (fun h => xml_deserialize soft A (fst h) (snd h)) fst reconstruct.
+  wsgi_run (msig * xnode) (xml_decode_head A rq) (fun h => xml_deserialize soft A (fst h) (snd h)) (fun h => ms_id (fst h)) reconstruct.
 Definition soap_wsgi (ns_soap : text) (soft : bool) (A : app) (reconstruct : res unit) (rq : soap_request) : outcome :=
-  wsgi_run (nat * xnode) (soap_decode_head ns_soap A rq) (fun h => soap_deserialize soft A (fst h) (snd h)) fst reconstruct.
+  wsgi_run (msig * xnode) (soap_decode_head ns_soap A rq) (fun h => soap_deserialize soft A (fst h) (snd h)) (fun h => ms_id (fst h)) reconstruct.
 Definition dict_wsgi (fmt : jv -> text) (P : dproto) (soft : bool) (A : app) (fuel : nat) (reconstruct : res unit)
     (rq : dict_request) : outcome :=
-  wsgi_run (nat * jv * jv) (dict_decode_head fmt P A rq)
-    (fun h => dict_deserialize P soft A fuel (fst (fst h)) (snd (fst h)) (snd h)) (fun h => fst (fst h)) reconstruct.
+  wsgi_run (msig * jv * jv) (dict_decode_head fmt P A rq)
+    (fun h => dict_deserialize P soft A fuel (fst (fst h)) (snd (fst h)) (snd h)) (fun h => ms_id (fst (fst h))) reconstruct.
